@@ -225,6 +225,11 @@ func (d *Demuxer) parse() error {
 	if webpTag != FourCCWEBP {
 		return ErrInvalidRIFF
 	}
+	// The RIFF size counts the 4-byte "WEBP" tag; a smaller value would put the
+	// end of the payload before its start.
+	if fileSize < 4 {
+		return ErrInvalidRIFF
+	}
 	// fileSize is the size after the first 8 bytes (RIFF + size field).
 	// Use uint64 arithmetic to prevent int overflow on 32-bit platforms.
 	totalSize64 := uint64(fileSize) + 8
